@@ -106,8 +106,11 @@ class ADWIN(StreamingDetector):
             # note that the other attributes should *not* be initialized after drift
             self.reset()
 
+        prior = (self._input_cols, self._input_col_dim)
         X, _, _ = super()._validate_input(X, None, None)
         if len(X.shape) > 1 and X.shape[1] != 1:
+            # a rejected input must not establish the expected columns
+            self._input_cols, self._input_col_dim = prior
             raise ValueError("ADWIN should only be used to monitor 1 variable.")
         super().update(X, None, None)
 
